@@ -61,6 +61,10 @@ type Contract struct {
 	Pos      string
 	Ghost    []GhostUpd
 	Allocates bool
+	Each      []string // lemma parameters ranging over all declared constants of their type
+	UseBody   []string // callees whose bodies are executed in this unit instead of their contracts
+	Uses      []string // lemmas whose (spec-level) statements are assumed, quantified over their parameters
+	Hide      []string // package-level variables whose contents are hidden in this unit (known only through `uses` lemmas)
 }
 
 type CallAssert struct {
@@ -424,7 +428,7 @@ func stripSpecPrefix(line string) (string, bool) {
 
 var clauseKeywords = map[string]bool{"requires": true, "ensures": true, "modifies": true, "loop": true, "inline": true,
 	"opaque": true, "trusted": true, "abstract": true, "func": true, "lemma": true, "pure": true, "assert": true,
-	"bounded": true, "ghost": true, "noframe": true, "allocates": true}
+	"bounded": true, "ghost": true, "noframe": true, "allocates": true, "each": true, "usebody": true, "uses": true, "hide": true}
 
 // ParseContracts scans a Go source file for //@ blocks.
 func ParseContracts(fset *token.FileSet, filename string, src []byte, cs *ContractSet) error {
@@ -542,6 +546,14 @@ func ParseContracts(fset *token.FileSet, filename string, src []byte, cs *Contra
 				cur.Abstract = true
 			case "noframe":
 				cur.NoFrame = true
+			case "each":
+				cur.Each = append(cur.Each, strings.Fields(strings.ReplaceAll(rest, ",", " "))...)
+			case "uses":
+				cur.Uses = append(cur.Uses, strings.Fields(strings.ReplaceAll(rest, ",", " "))...)
+			case "hide":
+				cur.Hide = append(cur.Hide, strings.Fields(strings.ReplaceAll(rest, ",", " "))...)
+			case "usebody":
+				cur.UseBody = append(cur.UseBody, strings.Fields(strings.ReplaceAll(rest, ",", " "))...)
 			case "allocates":
 				cur.Allocates = true
 			case "bounded":
